@@ -230,16 +230,16 @@ def run(ctx):
     ops2 = {"add": A.add_cartesian_vectors, "subtract": A.subtract_cartesian_vectors, "dot": A.dot_vectors,
             "cross": A.cross_cartesian_vectors, "equal": A.equal_vectors, "reject": A.reject_cartesian_vector}
     n_ref = 0
-    for (k1, s1), (k2, s2) in itertools.product(systems.items(), repeat=2):
-        v1 = Vector(_syms("a", 3), s1)
-        v2 = Vector(_syms("b", 3), s2)
+    for ((k1, s1), (k2, s2)), (n1, n2) in itertools.product(itertools.product(systems.items(), repeat=2), itertools.product(range(4), repeat=2)):
+        v1 = Vector(_syms("a", n1), s1)
+        v2 = Vector(_syms("b", n2), s2)
         mixed = s1 is not s2
         for nm, f in ops2.items():
             must_refuse = mixed or (nm in ("add", "subtract", "cross", "reject") and k1[0] != CoordinateSystem.System.CARTESIAN)
             if not must_refuse:
                 continue
             n_ref += 1
-            name = f"refuse_{nm}[{k1[0].name}{k1[1]},{k2[0].name}{k2[1]}]"
+            name = f"refuse_{nm}[{k1[0].name}{k1[1]}:{n1},{k2[0].name}{k2[1]}:{n2}]"
             try:
                 f(v1, v2)
                 refused = False
@@ -248,8 +248,8 @@ def run(ctx):
             if refused:
                 ctx.ob(name, "discharged", nontrivial=False)
             else:
-                script = REPLAY_REFUSE.format(k1=k1[0].name, i1=k1[1], k2=k2[0].name, i2=k2[1], op=nm)
-                ctx.violation("C10:" + name, f"{nm} accepted vectors of systems {k1[0].name}#{k1[1]} and {k2[0].name}#{k2[1]}", script)
+                script = REPLAY_REFUSE.format(k1=k1[0].name, i1=k1[1], k2=k2[0].name, i2=k2[1], op=nm, n1=n1, n2=n2)
+                ctx.violation("C10:" + name, f"{nm} accepted vectors of systems {k1[0].name}#{k1[1]} (length {n1}) and {k2[0].name}#{k2[1]} (length {n2})", script)
     ctx.extra["refusal_combinations"] = n_ref
     ctx.extra["exhaustive_over_lengths"] = True
 
@@ -366,7 +366,7 @@ def mk(kind, i):
     return CoordinateSystem(getattr(S, kind))
 s1 = mk("{k1}", {i1})
 s2 = s1 if ("{k1}", {i1}) == ("{k2}", {i2}) else mk("{k2}", {i2})
-v1 = Vector(sp.symbols("a0:3", real=True), s1); v2 = Vector(sp.symbols("b0:3", real=True), s2)
+v1 = Vector(sp.symbols("a0:{n1}", real=True), s1); v2 = Vector(sp.symbols("b0:{n2}", real=True), s2)
 ops = dict(add=A.add_cartesian_vectors, subtract=A.subtract_cartesian_vectors, dot=A.dot_vectors, cross=A.cross_cartesian_vectors, equal=A.equal_vectors, reject=A.reject_cartesian_vector)
 try:
     r = ops["{op}"](v1, v2)
